@@ -27,13 +27,13 @@ FcstOf(x, i) == [k \in 1..N12 |-> Add(QMid(x, i)[k], Frac(k % 3, 2))]
 QCases(x, i) == SelectSeq([k \in 1..N12 |-> <<ObsOf(x)[k], FcstOf(x, i)[k], QLow(x, i)[k], QMid(x, i)[k], QHigh(x, i)[k]>>], LAMBDA c : ~IsNaN(c[1]))
 PCases(x, i, t) == [k \in 1..N12 |-> <<ObsOf(x)[k], IF t = 1 THEN C1(x, i)[k] ELSE C2(x, i)[k], One>>]
 PE(x, i, bt, t) == EventPE(PCases(x, i, t), bt, R(t), R(t))
-Variants == {[diagram |-> "reliability", bt |-> b, argv |-> <<"-m", "reliability", "-r", "1", "-b", b>>] : b \in {"below=", "above", "below"}}
-       \cup {[diagram |-> "discrimination", bt |-> b, argv |-> <<"-m", "discrimination", "-r", "1", "-b", b>>] : b \in {"below=", "above"}}
-       \cup {[diagram |-> "roc", bt |-> b, argv |-> <<"-m", "roc", "-r", "1", "-b", b>>] : b \in {"below=", "above"}}
-       \cup {[diagram |-> "marginal", bt |-> b, argv |-> <<"-m", "marginal", "-r", "1,2", "-b", b>>] : b \in {"below=", "above"}}
+Variants == {[diagram |-> "reliability", bt |-> b, argv |-> <<"-m", "reliability", "-r", "1", "-b", b>>] : b \in {"below=", "above", "below", "above="}}
+       \cup {[diagram |-> "discrimination", bt |-> b, argv |-> <<"-m", "discrimination", "-r", "1", "-b", b>>] : b \in {"below=", "above", "above="}}
+       \cup {[diagram |-> "roc", bt |-> b, argv |-> <<"-m", "roc", "-r", "1", "-b", b>>] : b \in {"below=", "above", "above="}}
+       \cup {[diagram |-> "marginal", bt |-> b, argv |-> <<"-m", "marginal", "-r", "1,2", "-b", b>>] : b \in {"below=", "above", "above="}}
        \cup {[diagram |-> "pithist", bt |-> "none", argv |-> <<"-m", "pithist">>]}
        \* third tranche
-       \cup {[diagram |-> x, bt |-> b, argv |-> <<"-m", x, "-r", "1", "-b", b>>] : x \in {"murphy", "economicvalue", "bsdecomp", "igncontrib"}, b \in {"below=", "above"}}
+       \cup {[diagram |-> x, bt |-> b, argv |-> <<"-m", x, "-r", "1", "-b", b>>] : x \in {"murphy", "economicvalue", "bsdecomp", "igncontrib"}, b \in {"below=", "above", "above="}}
        \cup {[diagram |-> "invreliability", bt |-> "none", argv |-> <<"-m", "invreliability", "-q", "0.5", "-r", "0,1,2,3,4">>]}
        \cup {[diagram |-> "spreadskill", bt |-> "none", argv |-> <<"-m", "spreadskill", "-r", "1,2,3,4,5">>]}
        \cup {[diagram |-> "meteo", bt |-> "none", argv |-> <<"-m", "meteo">>]}
